@@ -702,7 +702,7 @@ func numericE2E(o Opts, rng *rand.Rand, w *cq.Writer, floats []float64) error {
 				continue
 			}
 			w.Add(fmt.Sprintf("CRangeQ %s %s %s %s %s %s", cq.U(math.Float64bits(lo)), cq.U(math.Float64bits(hi)), cq.B(il), cq.B(ih), cq.U64List(bits), cq.List(obs)),
-				"rangeq", nm > 0 && nm < n, map[string]interface{}{"lo": lo, "hi": hi, "il": il, "ih": ih, "matched": nm, "docs": n})
+				"rangeq", nm > 0 && nm < n, map[string]interface{}{"lo": fmt.Sprintf("%#x", math.Float64bits(lo)), "hi": fmt.Sprintf("%#x", math.Float64bits(hi)), "il": il, "ih": ih, "matched": nm, "docs": n})
 		}
 		rd.Close()
 		wr.Close()
